@@ -21,6 +21,7 @@ from . import store_gen as G
 
 NAME = 'builder-sim'
 _PM = None
+_PMS = []
 _REPO_TESTS_WEATHER = None
 
 AIRPORTS = {
@@ -37,7 +38,7 @@ IN_WEATHER = ['BOS', 'JFK', 'LGA', 'PHL', 'DCA', 'PIT', 'CLT']   # inside the te
 
 
 def warm():
-    global _PM, _REPO_TESTS_WEATHER
+    global _PM, _REPO_TESTS_WEATHER, _PMS
     import AEIC.trajectories.builders  # noqa: F401
     import AEIC.config.core as core
     from AEIC.performance.models import PerformanceModel
@@ -55,6 +56,13 @@ def warm():
     Config.load()
     try:
         _PM = PerformanceModel.load(os.path.join(pkg, 'performance', 'sample_performance_model.toml'))
+        _PMS = [_PM]
+        second = os.path.join(pkg, 'performance', 'random_test_ptf.toml')
+        if os.path.exists(second):
+            try:
+                _PMS.append(PerformanceModel.load(second))
+            except Exception:  # noqa: BLE001
+                pass
     finally:
         Config.reset()
 
@@ -158,7 +166,7 @@ class BuilderSim:
         Config.load(data_path_overrides=[os.path.join(sandbox, 'data')],
                     weather={'use_weather': True, 'weather_data_dir': _REPO_TESTS_WEATHER})
         install_seams()
-        self.pm = PMWrapper(_PM)
+        self.pms = [PMWrapper(pm) for pm in _PMS]
         self.builders = {}
         self.last_outcome = {}
 
@@ -176,7 +184,7 @@ class BuilderSim:
             options=tb.Options(iterate_mass=opts['iterate_mass'], use_weather=opts['use_weather'],
                                max_mass_iters=opts['max_mass_iters'], mass_iter_reltol=opts['reltol']),
             legacy_options=tb.LegacyOptions(frac_step_clm=opts['frac'], frac_step_crz=opts['frac'],
-                                            frac_step_des=opts['frac']),
+                                            frac_step_des=opts['frac'], fuel_LHV=opts.get('lhv', 43.8e6)),
         )
 
     def make_mission(self, m):
@@ -190,8 +198,9 @@ class BuilderSim:
     def fly_once(self, builder, m, plan):
         CURRENT_PLAN[0] = FaultPlan(plan)
         mission = self.make_mission(m)
+        pm = self.pms[m.get('pm', 0) % len(self.pms)]
         try:
-            traj = builder.fly(self.pm, mission)
+            traj = builder.fly(pm, mission)
         except Sentinel as e:
             out = ('exc', 'Sentinel', e)
         except Exception as e:  # noqa: BLE001
@@ -209,6 +218,7 @@ class BuilderSim:
         from AEIC.units import FEET_TO_METERS
 
         mission = self.make_mission(m)
+        _PM = _PMS[m.get('pm', 0) % len(_PMS)]
         try:
             if kind in ('unknown_origin', 'unknown_destination'):
                 mission.origin_position
@@ -334,6 +344,9 @@ def draw_opts(rng):
         'max_mass_iters': rng.randint(1, 6),
         'reltol': rng.choice([1e-1, 3e-2, 1e-2, 1e-3, 1e-4]),
         'frac': 0.02 if use_weather else rng.choice([0.02, 0.02, 0.01]),
+        # lower heating value of the fuel: low-energy fuels make the first-pass trip-fuel
+        # residual negative (more burned than estimated)
+        'lhv': rng.choice([43.8e6, 43.8e6, 43.8e6, 30e6, 15e6]),
     }
 
 
@@ -362,6 +375,8 @@ def gen_op(rng, cfg, bid, opts):
          'lf': rng.choice([0.7, 1.0, round(0.5 + rng.random() / 2, 3)])}
     if rng.random() < 0.3:
         m['fid'] = rng.randint(1, 10 ** 6)
+    if rng.random() < 0.3:
+        m['pm'] = 1
     kind = 'valid'
     fault = None
     if r < cfg['p_valid']:
